@@ -11,4 +11,6 @@ CONTROLS = [
     dict(name="fallback id column created without the marker",
          edits=[(F, '            params["id"] = {\n                "doc": "[PK]",', '            params["id"] = {\n                "doc": "primary key",')],
          expect=r"no-pk-branch/block.ensures\[0\]"),
+    dict(name="BENIGN: local `candidate_pks` renamed throughout sqlalchemy/utils/emit_utils.py", benign=True,
+         edits=[("cdd/sqlalchemy/utils/emit_utils.py", "candidate_pks", "pk_candidates", "rename")]),
 ]
